@@ -580,6 +580,11 @@ class XsdElement(XsdComponent, ParticleMixin,
                 with self.maps.protect_status():
                     if ns in self.maps.namespaces:
                         schema = self.maps.namespaces[ns][0]
+                        if schema.maps is not self.maps:
+                            # A namespace owned by the meta-schema (or by an ancestor): it
+                            # can't be extended by instance hints, that would also bypass
+                            # the access control settings of this schema.
+                            continue
                         schema.include_schema(url, context.source.base_url)
                     else:
                         schema = self.schema
@@ -1442,6 +1447,11 @@ class Xsd11Element(XsdElement):
                 with self.maps.protect_status():
                     if ns in self.maps.namespaces:
                         schema = self.maps.namespaces[ns][0]
+                        if schema.maps is not self.maps:
+                            # A namespace owned by the meta-schema (or by an ancestor): it
+                            # can't be extended by instance hints, that would also bypass
+                            # the access control settings of this schema.
+                            continue
                         schema.include_schema(url, context.source.base_url)
                     else:
                         schema = self.schema
